@@ -474,4 +474,164 @@ theorem pubDeps_terminates (G : Graph) (rank : Nat → Nat) (hr : RuleRank G ran
     intro d hd hpl
     exact ih d (by have := hr t d hd hpl; omega)
 
+/-! ### acyclic graphs: `publicDependencies` terminates, and a rank exists -/
+
+/-- a declared dependency that stays inside the rule (what `publicDependencies` recurses through) -/
+def RuleEdge (G : Graph) (t d : Nat) : Prop := d ∈ G.decl t ∧ G.pl d = G.pl t
+
+inductive RulePath (G : Graph) : Nat → Nat → Prop
+  | single {a b : Nat} : RuleEdge G a b → RulePath G a b
+  | cons {a b c : Nat} : RuleEdge G a b → RulePath G b c → RulePath G a c
+
+theorem RulePath.snoc {G : Graph} {a b c : Nat} (p : RulePath G a b) (e : RuleEdge G b c) : RulePath G a c := by
+  induction p with
+  | single e' => exact .cons e' (.single e)
+  | cons e' _ ih => exact .cons e' (ih e)
+
+/-- no dependency cycle inside one rule (in particular: every graph without dependency cycles, C06) -/
+def RuleAcyclic (G : Graph) : Prop := ∀ t, ¬ RulePath G t t
+
+/-- On an acyclic graph the recursion of `publicDependencies` follows a simple path of targets, so it is at most
+`nodes.length` deep. -/
+theorem pubDeps_terminates_acyclic (G : Graph) (hwf : GWF G) (hac : RuleAcyclic G) : ∀ (fuel t : Nat) (path : List Nat),
+    t ∈ G.nodes → path.Nodup → (∀ p ∈ path, p ∈ G.nodes ∧ RulePath G p t) → G.nodes.length + 1 ≤ fuel + path.length →
+    pubDeps G fuel t ≠ none := by
+  intro fuel
+  induction fuel with
+  | zero =>
+    intro t path _ hn hp hf
+    have := PlzVerif.Cycle.nodup_subset_length path G.nodes hn (fun x hx => (hp x hx).1)
+    omega
+  | succ fuel ih =>
+    intro t path ht hn hp hf
+    rw [pubDeps_succ]
+    apply pubFold_some
+    intro d hd hpl
+    have htp : t ∉ path := fun hin => hac t (hp t hin).2
+    apply ih d (t :: path) ((hwf t ht).1 d hd) (List.nodup_cons.mpr ⟨htp, hn⟩)
+    · intro p hpm
+      simp only [List.mem_cons] at hpm
+      rcases hpm with rfl | hpm
+      · exact ⟨ht, .single ⟨hd, hpl⟩⟩
+      · exact ⟨(hp p hpm).1, (hp p hpm).2.snoc ⟨hd, hpl⟩⟩
+    · simp only [List.length_cons]; omega
+
+theorem pubFold_some_inv (G : Graph) (fuel t : Nat) : ∀ (ds : List Nat) (acc : List Nat),
+    pubFold G fuel t ds (some acc) ≠ none → ∀ d ∈ ds, G.pl d = G.pl t → pubDeps G fuel d ≠ none := by
+  intro ds
+  induction ds with
+  | nil => intro acc _ d hd; simp at hd
+  | cons d' ds ih =>
+    intro acc h d hd hpl
+    simp only [pubFold, List.foldl_cons] at h
+    by_cases hc : G.pl d' = G.pl t
+    · have hb : (G.pl d' == G.pl t) = true := by simp [hc]
+      simp only [hb, ite_true] at h
+      cases hp : pubDeps G fuel d' with
+      | none =>
+        rw [hp] at h
+        simp only [Option.map_none] at h
+        have := pubFold_none G fuel t ds
+        simp only [pubFold] at this
+        exact absurd this h
+      | some dl =>
+        rw [hp] at h
+        simp only [Option.map_some] at h
+        simp only [List.mem_cons] at hd
+        rcases hd with rfl | hd
+        · rw [hp]; simp
+        · exact ih _ h d hd hpl
+    · have hb : (G.pl d' == G.pl t) = false := by simp [hc]
+      simp only [hb, Bool.false_eq_true, ite_false] at h
+      simp only [List.mem_cons] at hd
+      rcases hd with rfl | hd
+      · exact absurd hpl hc
+      · exact ih _ h d hd hpl
+
+/-- search upwards from `f`, at most `k` steps, for a recursion budget with which `publicDependencies t` finishes -/
+def firstFuel (G : Graph) (t : Nat) : Nat → Nat → Nat
+  | 0, f => f
+  | k+1, f => if (pubDeps G f t).isSome then f else firstFuel G t k (f + 1)
+
+theorem firstFuel_spec (G : Graph) (t : Nat) : ∀ (k f f0 : Nat), f ≤ f0 → f0 ≤ f + k → pubDeps G f0 t ≠ none →
+    (∀ g, f ≤ g → g < f0 → pubDeps G g t = none) → firstFuel G t (k + 1) f = f0 := by
+  intro k
+  induction k with
+  | zero =>
+    intro f f0 h1 h2 hs _
+    have : f0 = f := by omega
+    subst this
+    simp only [firstFuel]
+    cases hp : pubDeps G f0 t with
+    | none => exact absurd hp hs
+    | some _ => simp
+  | succ k ih =>
+    intro f f0 h1 h2 hs hmin
+    rw [firstFuel]
+    by_cases he : f = f0
+    · subst he
+      cases hp : pubDeps G f t with
+      | none => exact absurd hp hs
+      | some _ => simp
+    · have hn : pubDeps G f t = none := hmin f (Nat.le_refl _) (by omega)
+      simp only [hn, Option.isSome_none, Bool.false_eq_true, ite_false]
+      exact ih (f + 1) f0 (by omega) (by omega) hs (fun g hg1 hg2 => hmin g (by omega) hg2)
+
+/-- the least budget that suffices exists below any budget that suffices -/
+theorem least_fuel (G : Graph) (t : Nat) : ∀ (f0 : Nat), pubDeps G f0 t ≠ none →
+    ∃ m, m ≤ f0 ∧ pubDeps G m t ≠ none ∧ ∀ g, g < m → pubDeps G g t = none := by
+  intro f0
+  induction f0 using Nat.strongRecOn with
+  | _ f0 ih =>
+    intro hs
+    by_cases hall : ∀ g, g < f0 → pubDeps G g t = none
+    · exact ⟨f0, Nat.le_refl _, hs, hall⟩
+    · have : ∃ g, g < f0 ∧ pubDeps G g t ≠ none := by
+        apply Classical.byContradiction
+        intro hne
+        apply hall
+        intro g hg
+        apply Classical.byContradiction
+        intro hgn
+        exact hne ⟨g, hg, hgn⟩
+      obtain ⟨g, hg, hgs⟩ := this
+      obtain ⟨m, hm1, hm2, hm3⟩ := ih g hg hgs
+      exact ⟨m, by omega, hm2, hm3⟩
+
+/-- An acyclic graph (no dependency cycle inside one rule) that holds its dependencies has a rank that strictly
+decreases along the dependencies `publicDependencies` follows, bounded by the number of targets. -/
+theorem ruleRank_of_acyclic (G : Graph) (hwf : GWF G) (hac : RuleAcyclic G) :
+    ∃ rank : Nat → Nat, (∀ t ∈ G.nodes, ∀ d, RuleEdge G t d → rank d < rank t) ∧ ∀ t ∈ G.nodes, rank t ≤ G.nodes.length := by
+  -- rank t = (the least budget with which publicDependencies t finishes) - 1
+  refine ⟨fun t => firstFuel G t (G.nodes.length + 2) 0 - 1, ?_, ?_⟩
+  all_goals
+    have hterm : ∀ t ∈ G.nodes, pubDeps G (G.nodes.length + 1) t ≠ none := fun t ht =>
+      pubDeps_terminates_acyclic G hwf hac _ t [] ht List.nodup_nil (by simp) (by simp)
+    have hfirst : ∀ t ∈ G.nodes, ∃ m, firstFuel G t (G.nodes.length + 2) 0 = m ∧ 1 ≤ m ∧ m ≤ G.nodes.length + 1 ∧
+        pubDeps G m t ≠ none ∧ ∀ g, g < m → pubDeps G g t = none := by
+      intro t ht
+      obtain ⟨m, hm1, hm2, hm3⟩ := least_fuel G t _ (hterm t ht)
+      have hpos : 1 ≤ m := by
+        cases m with
+        | zero => exact absurd rfl hm2
+        | succ _ => omega
+      exact ⟨m, firstFuel_spec G t (G.nodes.length + 1) 0 m (Nat.zero_le _) (by omega) hm2 (fun g _ hg => hm3 g hg),
+        hpos, hm1, hm2, hm3⟩
+  · intro t ht d ⟨hd, hpl⟩
+    obtain ⟨m, em, hm1, _, hms, _⟩ := hfirst t ht
+    obtain ⟨md, emd, hd1, _, _, hdmin⟩ := hfirst d ((hwf t ht).1 d hd)
+    simp only [em, emd]
+    -- m = m' + 1 and publicDependencies d finishes with budget m'
+    obtain ⟨m', rfl⟩ : ∃ m', m = m' + 1 := ⟨m - 1, by omega⟩
+    rw [pubDeps_succ] at hms
+    have hdm : pubDeps G m' d ≠ none := pubFold_some_inv G m' t (G.decl t) [] hms d hd hpl
+    have : md ≤ m' := by
+      apply Classical.byContradiction
+      intro hlt
+      exact hdm (hdmin m' (by omega))
+    omega
+  · intro t ht
+    obtain ⟨m, em, _, hm2, _, _⟩ := hfirst t ht
+    simp only [em]; omega
+
 end PlzVerif.GC
